@@ -69,6 +69,9 @@ fn arb_word() -> BoxedStrategy<u64> {
         1 => (0usize..8).prop_map(|i| !STRIPES[i]),
         1 => (0u32..64).prop_map(|b| 1u64 << b),
         1 => (0u32..64).prop_map(|b| !(1u64 << b)),
+        // thermometer patterns: the lowest b positions set (and complements)
+        1 => (0u32..64).prop_map(|b| (1u64 << b) - 1),
+        1 => (0u32..64).prop_map(|b| !((1u64 << b) - 1)),
     ]
     .boxed()
 }
@@ -140,6 +143,33 @@ pub fn arb_tt(n: usize) -> BoxedStrategy<Tt> {
         Tt::from_fn(n, |m| (c >> (m.count_ones() as u32 % 32)) & 1 != 0)
     });
     let konst = any::<bool>().prop_map(move |b| if b { Tt::one(n) } else { Tt::zero(n) });
+    // the lowest `a` assignments true (the shape orbit minima tend to have), the rest either empty,
+    // a few stragglers, or (multi-word tables) uniformly random above the first word
+    let packed = (0..=size, vec(0..size, 0..=3), vec(any::<u64>(), words), 0u8..3, any::<bool>()).prop_map(move |(a, extra, rnd, mode, co)| {
+        let mut t = Tt::from_fn(n, |m| m < a);
+        match mode {
+            0 => {}
+            1 => {
+                for m in extra {
+                    let v = t.get(m);
+                    t.set(m, !v);
+                }
+            }
+            _ => {
+                for w in 1..words {
+                    t.w[w] = rnd[w];
+                }
+                if a > 64 {
+                    t = Tt::from_fn(n, |m| if m < 64 { true } else { t.get(m) });
+                }
+            }
+        }
+        if co {
+            t.not()
+        } else {
+            t
+        }
+    });
     if n == 0 {
         return prop_oneof![uniform, konst].boxed();
     }
@@ -152,6 +182,7 @@ pub fn arb_tt(n: usize) -> BoxedStrategy<Tt> {
         2 => symmetric,
         3 => expr,
         1 => konst,
+        2 => packed,
     ]
     .boxed()
 }
@@ -272,6 +303,10 @@ enum Edit {
     Upper,
     Clear,
     TruncTo(usize),
+    /// overwrite as many characters as `c` has UTF-8 bytes, ending `back` bytes after the 16-byte
+    /// chunk boundary number `chunk`: the BYTE length is preserved and the character straddles
+    /// (back < len) or touches the boundary
+    Splice(usize, usize, char),
 }
 
 fn apply_edit(s: &str, e: &Edit) -> String {
@@ -298,20 +333,30 @@ fn apply_edit(s: &str, e: &Edit) -> String {
         }
         Edit::Clear => v.clear(),
         Edit::TruncTo(k) => v.truncate(*k),
+        Edit::Splice(chunk, back, c) => {
+            let l = c.len_utf8();
+            let end = chunk * 16 + back; // exclusive end position (in chars = bytes of the ASCII print)
+            if end >= l && end <= v.len() && v.iter().all(|x| x.is_ascii()) {
+                let start = end - l;
+                v.splice(start..end, std::iter::once(*c));
+            }
+        }
     }
     v.into_iter().collect()
 }
 
 fn arb_edit(len: usize) -> BoxedStrategy<Edit> {
     prop_oneof![
-        5 => (arb_pos(len), arb_char()).prop_map(|(p, c)| Edit::Replace(p, c)),
-        3 => (arb_pos(len + 1), arb_char()).prop_map(|(p, c)| Edit::Insert(p, c)),
+        9 => (arb_pos(len), arb_char()).prop_map(|(p, c)| Edit::Replace(p, c)),
+        2 => (arb_pos(len + 1), arb_char()).prop_map(|(p, c)| Edit::Insert(p, c)),
         2 => arb_pos(len).prop_map(Edit::Delete),
         1 => arb_char().prop_map(Edit::Append),
         1 => arb_char().prop_map(Edit::Prepend),
         1 => Just(Edit::Upper),
         1 => Just(Edit::Clear),
         1 => (0..=len).prop_map(Edit::TruncTo),
+        4 => (0..=(len / 16), 0usize..=4, (16usize..ODD_CHARS.len()).prop_map(|i| ODD_CHARS[i]), any::<char>(), any::<bool>())
+            .prop_map(|(chunk, back, c, anyc, pick)| Edit::Splice(chunk, back, if pick { c } else { anyc })),
     ]
     .boxed()
 }
@@ -332,7 +377,7 @@ pub fn arb_hex_input(n: usize) -> BoxedStrategy<String> {
         6 => one_edit,
         2 => two_edits,
         2 => digits,
-        2 => short,
+        1 => short,
     ]
     .boxed()
 }
